@@ -8,6 +8,18 @@ C={
 "C04":("model_checking","explicit-state BFS over API programs executed on the real code, reference-model oracle","DESIGN.md 4/C04",
   "Every API program up to the stated operation bound from every seed state/configuration is executed by the real code and compared step by step with a nested-map reference model; exhaustive within the bound, nothing sampled.",
   "Trusted: refmodel (documented API contract), the harness executor; bounded alphabets of keys/values/bucket names; state merging by exact state key."),
+"C06":("model_checking","explicit-state BFS over API programs on the real code with a write monitor on every WriteAt","DESIGN.md 4/C06",
+  "Every write the real code issues in every explored program (readers of all ages, rollbacks, reopen, nested delete/move) is checked when issued against the page sets of all visible committed versions and the meta-slot rule; exhaustive within the operation bound.",
+  "Trusted: boltfmt page sets computed at commit time; the tag-guarded write hook sees every WriteAt of the data file."),
+"C07":("model_checking","explicit-state BFS over API programs on the real code, independent page-accounting decoder as oracle","DESIGN.md 4/C07",
+  "After every commit, rollback and reopen of every explored program the independent decoder must account for every page exactly once and Stats/Tx.Page/Tx.Check must agree; exhaustive within the operation bound; known finding F5 is reported as such.",
+  "Trusted: boltfmt (cross-validated three ways on every state); bounded alphabets."),
+"C10":("model_checking","explicit-state BFS over reader/writer event orders on the real code, allocator state inspected at every writer begin and commit","DESIGN.md 4/C10",
+  "Every order of reader open/close, writer begin/commit/rollback and reopen within the bound; at each writer begin no allocatable page belongs to a visible version and nothing stays pending without readers; after commits only that commit's releases are withheld.",
+  "Finite horizon only for the no-unbounded-growth clause; page sets from boltfmt; freelist state through the tag-guarded accessor."),
+"C12":("model_checking","explicit-state BFS over API programs; every produced file decoded by an independent version-2 reader and compared with model and API","DESIGN.md 4/C12",
+  "Every file at every transaction boundary of the explorations (all configurations/page sizes) is decoded by a reader written only from the published layout and must equal the reference model and the API dump; meta slots, parity, checksum, flags checked.",
+  "Trusted: boltfmt's reading of the version-2 layout."),
 }
 checks=[]
 for pid,(lvl,tech,ref,text,note) in sorted(C.items()):
